@@ -22,6 +22,8 @@ type Engine struct {
 	Funcs    map[string]*ssa.Function // full name -> function (pkgpath.RelString)
 	AllFuncs []*ssa.Function
 	eventSigs map[string]*eventSig
+	fieldTargets    map[string][]*ssa.Function
+	fieldTargetsBad map[string]bool
 	RepoDir  string
 
 	mutableGlobals map[*ssa.Global]bool
